@@ -75,7 +75,7 @@ def _worker(spec):
     flavour = spec['flavour']; modes = spec['modes']
     out = {'counts': collections.Counter(), 'viol': [], 'samples': [], 'distinct': [], 'incon': []}
     C = out['counts']
-    exe = common.build(eg.emit_tu(gs), flavour, extra=eg.mode_defines(modes))
+    exe, hook_ok = eg.build_tu(eg.emit_tu(gs), flavour, extra=eg.mode_defines(modes))
     if 'explicit_inputs' in spec: inputs = [[bytes.fromhex(h) for h in lst] for lst in spec['explicit_inputs']]
     else: inputs = [hostile_inputs(g, rnd, spec['tier']) for g in gs]
     jobs = []
@@ -171,7 +171,7 @@ def valgrind_worker(spec):
             out['incon'].append('valgrind not installed'); return out
         rnd = random.Random(spec['seed'])
         gs = [Grammar.from_json(j) for j in spec['grammars']]
-        exe = common.build(eg.emit_tu(gs), 'gxx', extra=eg.mode_defines([0, 1, 3, 4]) + ['-g'])
+        exe, hook_ok = eg.build_tu(eg.emit_tu(gs), 'gxx', extra=eg.mode_defines([0, 1, 3, 4]) + ['-g'])
         jobs = [('D', gi) for gi in range(len(gs))]
         for gi, g in enumerate(gs):
             ins = [d for d in hostile_inputs(g, rnd, 'quick') if len(d) <= 200]
